@@ -30,6 +30,16 @@ COMMON_COL = ("name", "type", "size", "references", "unique", "nullable", "defau
 COMMON_TABLE = set(K.MF["common_table_keys"]) | {"dataset"}
 
 
+SPECIAL = [
+    "CREATE TABLE p1.ds.t1 (a int, b int);\nALTER TABLE ds.t1 ADD UNIQUE (a);\nCREATE INDEX i1 ON ds.t1 (b);\n",
+    "CREATE TABLE ds.t1 (a int, b int);\nALTER TABLE p1.ds.t1 ADD FOREIGN KEY (a, b) REFERENCES p1.ds.o (x, y);\n",
+    "CREATE TABLE `p1`.`ds`.`t1` (a int, b int);\nCREATE UNIQUE INDEX i1 ON `p1`.`ds`.`t1` (a DESC);\n",
+    "CREATE TABLE s1.t1 (a int PRIMARY KEY, b varchar(5) ENCODE zstd, c int ENCRYPT) DISTSTYLE KEY DISTKEY (a);\nALTER TABLE s1.t1 DROP COLUMN c;\n",
+    "CREATE TABLE t1 (a int, b int) PARTITIONED BY (p date) STORED AS PARQUET LOCATION 's3://x' TBLPROPERTIES ('k'='v');\nCREATE TABLE t2 (a int) CLUSTERED BY (a) INTO 4 BUCKETS;\n",
+    "CREATE TABLE s1.t1 (a int, b int);\nCREATE SEQUENCE s1.sq START 1;\nCREATE TYPE s1.ty AS ENUM ('x');\nCREATE SCHEMA sc1;\nSET x = 1;\n",
+]
+
+
 def norm(x, top=True):
     """mode-independent view of a result value"""
     if isinstance(x, dict):
@@ -161,6 +171,8 @@ def run(tier, seed):
     eb = [b for b in ge.beh if b["hist"]]
     for b in (eb if thorough else rnd.sample(eb, min(len(eb), 300))):
         inputs.append(("entities", E.render(b["hist"], seed)[0], {}))
+    for i, t in enumerate(SPECIAL):
+        inputs.append((f"special:{i}", t, {}))
     states += gr.distinct + gt.distinct + ge.distinct
     trans += gr.generated + gt.generated + ge.generated
     n1, _ = relate(V, inputs, qmodes, "generated statements")
